@@ -68,6 +68,18 @@ pub fn execute_memoized_function<Db: Database>(
         db.get_storage().top_level_calls.push(derived_node_id);
     }
 
+    execute_memoized_function_inner(db, derived_node_id, inner_fn)
+}
+
+/// The body of [`execute_memoized_function`], without top-level call tracking.
+/// Dependencies of a top-level call are verified while the dependency stack is
+/// still empty; they must not be mistaken for top-level calls, or they evict
+/// the actual top-level call from the LRU cache.
+fn execute_memoized_function_inner<Db: Database>(
+    db: &Db,
+    derived_node_id: DerivedNodeId,
+    inner_fn: InnerFn<Db>,
+) -> DidRecalculate {
     let (did_recalculate, time_updated) = if let Some((derived_node, revision)) = db
         .get_storage()
         .internal
@@ -241,7 +253,7 @@ fn derived_node_changed_since<Db: Database>(
     } else {
         return true;
     };
-    let did_recalculate = execute_memoized_function(db, derived_node_id, inner_fn);
+    let did_recalculate = execute_memoized_function_inner(db, derived_node_id, inner_fn);
     matches!(
         did_recalculate,
         DidRecalculate::Recalculated | DidRecalculate::Error
